@@ -681,6 +681,15 @@ impl Prop for C20 {
         if ch.chance(1, 16) {
             c.cli_threads = Some(*ch.pick(&[1usize, 2, 4]));
         }
+        // "every limit F' > F": also very large ones (in-process only values whose misuse as a size
+        // panics instead of exhausting memory)
+        if ch.chance(1, 5) {
+            c.fuzz2 = if c.cli_threads.is_some() {
+                *ch.pick(&[255usize, 256, 257, 65535, 65536, 4294967296, 10_000_000_000_000, 9223372036854775807, 18446744073709551615])
+            } else {
+                *ch.pick(&[4611686018427387904usize, 9223372036854775807, 18446744073709551615])
+            };
+        }
         c
     }
     fn check(&self, case: &PlaceCase, cx: &mut CaseCtx) -> Verdict {
